@@ -445,7 +445,8 @@ compute_image_info (pixman_image_t *image)
     case BITS:
 	if (image->bits.width == 1	&&
 	    image->bits.height == 1	&&
-	    image->common.repeat != PIXMAN_REPEAT_NONE)
+	    image->common.repeat != PIXMAN_REPEAT_NONE &&
+	    !PIXMAN_FORMAT_IS_WIDE (image->bits.format))
 	{
 	    code = PIXMAN_solid;
 	}
